@@ -1,7 +1,7 @@
 (* C06 — within-line emphasis marks exactly what changed.  Statements only. *)
 From Coq Require Import List Bool NArith Arith.
 Import ListNotations.
-From DV Require Import Text Align AlignFacts Tokenize TokenizeFacts Realign Pairing PairingFacts.
+From DV Require Import Text Align AlignFacts AlignSame Tokenize TokenizeFacts Realign Pairing PairingFacts.
 
 (* The tokens of a line concatenate to the line, and the first token is the empty token —
    for every tokeniser of this shape (any word predicate). *)
@@ -33,6 +33,13 @@ Theorem C06_emphasis_sound : forall (T : Type) (eqb : T -> T -> bool),
   forall d x y, x <> [] -> y <> [] -> nth 0 x d = nth 0 y d ->
   keep_x T (operations T eqb x y) x = keep_y T (operations T eqb x y) y.
 Proof. intros T eqb H d x y. exact (emphasis_sound T eqb H d x y). Qed.
+
+(* A line compared with an identical line gets no emphasis at all: every operation is NoOp
+   (for every token type whose comparison is reflexive, every non-empty token list). *)
+Theorem C06_identical_lines_no_emphasis : forall (T : Type) (eqb : T -> T -> bool),
+  (forall a, eqb a a = true) ->
+  forall (d : T) x, x <> [] -> operations T eqb x x = repeat ONoOp (length x).
+Proof. intros T eqb H d x. exact (operations_same T eqb H d x). Qed.
 
 (* Non-vacuity: "aaa bb" vs "aaa cc" *)
 Example C06_example :
